@@ -62,8 +62,12 @@ def handler(st, opts):
                 os.makedirs(TMP, exist_ok=True)
                 dd = tempfile.mkdtemp(dir=TMP)
                 try:
-                    path = os.path.join(dd, "x.TT")
+                    # file names as a user may choose them; a second object is saved next to the first before it is loaded
+                    # back (a file is identified by its whole name)
+                    names = [("x.TT", "y.TT"), ("obj.0", "obj.1"), ("state", "state.bak"), ("a.b.TT", "a.c.TT")][(len(S["I"]) + S["f"]) % 4]
+                    path = os.path.join(dd, names[0])
                     tt.save(X, path)
+                    tt.save(-X, os.path.join(dd, names[1]))
                     Y = tt.load(path)
                 finally:
                     shutil.rmtree(dd, ignore_errors=True)
